@@ -865,3 +865,308 @@ def vc_build_node_path_choice(prog, last_is_e=False):
     rep = verify_function(prog, fv, setup, goals, models=models, hooks=hk, contracts=contracts, loops=loops, end_goals=end_goals,
                           name=f"BaseMatcher._build_node_path(choice of the final entry)[last_is_e={last_is_e}]")
     return fv, rep
+
+
+# =============================================================================================== _build_node_path: the returned sequence
+StateKey = z3.DeclareSort('StateKey')          # shortkey of a lattice entry (a node label or an edge): equality only
+
+
+class KeyList:
+    """sequence of state keys of symbolic length n: element i is sel(i)"""
+    def __init__(self, name, n, sel, of=None):
+        self.name, self.n, self.sel, self.of = name, n, sel, of
+
+    def __repr__(self):
+        return f"<KeyList {self.name}>"
+
+
+class EntryList:
+    """the back-tracked sequence of lattice entries (result of _build_matching_path): only the state key of an entry is read"""
+    def __init__(self, name, n, key):
+        self.name, self.n, self.key = name, n, key
+
+
+def vc_build_node_path_tail(prog, unique=True):
+    """What _build_node_path returns, given the back-tracked entry sequence of ARBITRARY length (callee contract of
+    _build_matching_path: some sequence of entries): lattice_best is that sequence; the returned state sequence is its
+    state keys in order - all of them (unique=False), or with exactly the immediate repetitions removed (unique=True: loop
+    invariant prev_node = previous key; a key is appended iff it differs from its predecessor).  C03/C04."""
+    from contracts import prune as P
+    fv = prog.func(K.BASE, 'BaseMatcher._build_node_path')
+    st = {}
+    start_idx = I('start_idx')
+    IntS, RealS, BoolS = z3.IntSort(), z3.RealSort(), z3.BoolSort()
+    keyf = z3.Function('lb_key', IntS, StateKey)
+
+    def setup(ctx, it):
+        st.clear()
+        col = P.fresh_arrlist(ctx, 'col')
+        col.fields['obs_ne'] = z3.Array(f"col_ne!{ctx.n}", IntS, IntS)
+        ctx.assume(col.n >= 0)
+        matcher = K.mk_matcher('BaseMatcher')
+        matcher.f['lattice'] = Obj('Lattice')
+        matcher.f['lattice_best'] = None
+        matcher.f['node_path'] = None
+        st.update(col=col, matcher=matcher)
+        return [matcher, start_idx], {'unique': unique}
+
+    def c_build_matching_path(it, fv_, args, kw):
+        n = it.ctx.fresh('lb_n', 'I')
+        it.ctx.assume(n >= 1)          # the chosen entry itself is always part of the sequence
+        st['lb'] = EntryList('lattice_best', n, keyf)
+        st['lb_args'] = args
+        return st['lb']
+
+    hk, mods = P.hooks(prog, st)
+    hk = dict(hk)
+    hk[('index', 'Lattice')] = lambda it, o, i: Obj('Column', idx=i)
+    hk[('indexed', 'ArrList')] = lambda it, a: (a.n, lambda i: P.ElemRef(a, i))
+    hk[('indexed', 'KeyList')] = lambda it, a: (a.n, lambda i: a.sel(i))
+
+    def h_getattr(it, ref, attr):
+        if attr in ref.arr.fields:
+            return z3.Select(ref.arr.fields[attr], ref.idx)
+        raise Unsupported(f"entry attribute {attr}")
+    hk[('getattr', 'ElemRef')] = h_getattr
+
+    def h_compr(it, src, gen, e, env, kind):
+        import ast
+        # [m.shortkey for m in <entry sequence>]
+        if kind == 'list' and isinstance(e.elt, ast.Attribute) and isinstance(e.elt.value, ast.Name) and isinstance(gen.target, ast.Name) \
+                and e.elt.value.id == gen.target.id and e.elt.attr == 'shortkey' and not gen.ifs:
+            kl = KeyList('node_path', src.n, src.key, of=src)
+            st['keys'] = kl
+            return kl
+        raise Unsupported("comprehension over the back-tracked sequence other than its state keys")
+    hk[('comprehension', 'EntryList')] = h_compr
+    models = dict(K.base_models())
+    models[('meth', 'Column', 'values_all')] = Model('LatticeColumn.values_all', lambda it, c: st['col'])
+    contracts = {'BaseMatcher._build_matching_path': c_build_matching_path}
+
+    # --- the choice loops (proved in vc_build_node_path_choice): here only what the tail needs - some entry or None
+    def choice_havoc(it, env, pre):
+        if it.ctx.choice(2, 'node_max-none') == 0:
+            env['node_max'] = None
+        else:
+            env['node_max'] = P.ElemRef(st['col'], it.ctx.fresh('jstar', 'I'))
+        if 'node_max_ne' in env:
+            env['node_max_ne'] = it.ctx.fresh('nm_ne', 'I')
+
+    # --- the unique loop
+    def u_inv(it, env):
+        k = env['$idx']
+        pv = env.get('prev_node')
+        if pv is None:
+            return [('no-previous-key-only-before-the-first-element', k == 0)]
+        if not (z3.is_expr(pv) and pv.sort() == StateKey):
+            return [('previous-key-is-a-state-key', z3.BoolVal(False))]
+        return [('previous-key-is-the-preceding-element', z3.And(k >= 1, pv == keyf(k - 1)))]
+
+    def u_havoc(it, env, pre):
+        if it.ctx.choice(2, 'prev-none') == 0:
+            env['prev_node'] = None
+        else:
+            env['prev_node'] = it.ctx.fresh('prev_key', StateKey)
+
+    def u_body_post(it, env, pre, elem, events, how):
+        apps = [e for e in events if e.kind == 'append']
+        k = env['$idx'] - 1            # the engine has advanced the index past this iteration
+        acc = st['matcher'].f.get('node_path')
+        ok_target = all(e.acc is acc for e in apps) and isinstance(acc, Accum)
+        it.ctx.oblige("unique:appends-go-to-the-returned-list", b2z(ok_target), kind='post')
+        first_or_changed = z3.Or(k == 0, keyf(k) != keyf(k - 1))
+        it.ctx.oblige("unique:a-key-is-kept-iff-it-differs-from-its-predecessor",
+                      first_or_changed if len(apps) == 1 else (z3.Not(first_or_changed) if len(apps) == 0 else z3.BoolVal(False)), kind='post')
+        if len(apps) == 1:
+            it.ctx.oblige("unique:the-kept-key-is-the-current-element", b2z(eq(apps[0].value, keyf(k))), kind='post')
+    import ast
+    loops_ast = sorted([x for x in ast.walk(fv.node) if isinstance(x, (ast.For, ast.While))], key=lambda x: (x.lineno, x.col_offset))
+    loops = {}
+    for i, x in enumerate(loops_ast):
+        if isinstance(x, ast.For) and 'values_all' in ast.unparse(x.iter):
+            loops[(fv.qual, i)] = {'havoc': choice_havoc}
+        elif isinstance(x, ast.For) and 'prev_node' in ast.unparse(x):
+            loops[(fv.qual, i)] = {'inv': u_inv, 'havoc': u_havoc, 'body_post': u_body_post}
+
+    def goals(ctx, res):
+        m = st['matcher']
+        if 'lb' not in st:
+            return [('tail:none-only-without-a-final-entry', b2z(res is None))]
+        g = [('tail:lattice_best-is-the-back-tracked-sequence', b2z(m.f.get('lattice_best') is st['lb'])),
+             ('tail:back-tracking-starts-from-the-chosen-entry', b2z(len(st['lb_args']) >= 2 and isinstance(st['lb_args'][1], P.ElemRef))),
+             ('tail:result-is-stored-as-node_path', b2z(res is m.f.get('node_path')))]
+        if unique:
+            g.append(('tail:unique-result-is-the-accumulated-list-starting-empty', b2z(isinstance(res, Accum) and len(res.init) == 0)))
+        else:
+            g.append(('tail:all-state-keys-in-order', b2z(isinstance(res, KeyList) and res.of is st['lb'] and res.sel is keyf)))
+        return g
+    rep = verify_function(prog, fv, setup, goals, models=models, hooks=hk, contracts=contracts, loops=loops,
+                          name=f"BaseMatcher._build_node_path(returned sequence)[unique={unique}]")
+    return fv, rep
+
+
+# =============================================================================================== _build_matching_path: back-tracking
+class PrevSeq:
+    """the predecessor collection of entry number `of`, listed in some fixed order: element j is entry prev_at(of, j)"""
+    def __init__(self, of):
+        self.of = of
+
+
+def vc_build_matching_path(prog, depth_given=False):
+    """Back-tracking over predecessor links for a chain of ARBITRARY length and predecessor sets of arbitrary size.
+    Entries are numbered (array model E: logprob, obs_ne); prev(i) = [prev_at(i, 0), ..., prev_at(i, prev_n(i)-1)].
+    Inner loop: inductive arg-max invariant.  Outer loop, per iteration: exactly one entry is
+    appended, it is a most probable member of prev(current entry) and becomes the current entry; the emitting-depth counter
+    grows by one exactly for emitting entries; the loop body cannot break when the predecessor set is non-empty.  The result
+    is the accumulated list reversed, starting from the given entry.  (C02, C03, C04: the reported path follows the stored
+    predecessor links; termination is not proved.)"""
+    from contracts import prune as P
+    fv = prog.func(K.BASE, 'BaseMatcher._build_matching_path')
+    st = {}
+    IntS, RealS, BoolS = z3.IntSort(), z3.RealSort(), z3.BoolSort()
+    prev_n = z3.Function('prev_n', IntS, IntS)
+    inner_target = 'prev_m'
+    prev_at = z3.Function('prev_at', IntS, IntS, IntS)
+    jq = z3.Int('j!bt')
+
+    def setup(ctx, it):
+        st.clear()
+        E = P.ArrList('E', ctx.fresh('E_n', 'I'), {'logprob': z3.Array(f"E_lp!{ctx.n}", IntS, RealS),
+                                                   'obs_ne': z3.Array(f"E_ne!{ctx.n}", IntS, IntS),
+                                                   'obs': z3.Array(f"E_obs!{ctx.n}", IntS, IntS)})
+        s = ctx.fresh('start', 'I')
+        ctx.assume(0 <= s, s < E.n)
+        # well-formed lattice (C09): predecessor numbers are entries, sizes are non-negative
+        iq = z3.Int('i!bt')
+        ctx.assume(z3.ForAll([iq], prev_n(iq) >= 0),
+                   z3.ForAll([iq, jq], z3.Implies(z3.And(0 <= iq, iq < E.n, 0 <= jq, jq < prev_n(iq)),
+                                                  z3.And(0 <= prev_at(iq, jq), prev_at(iq, jq) < E.n))))
+        matcher = K.mk_matcher('BaseMatcher')
+        matcher.f['lattice'] = Obj('Lattice')
+        st.update(E=E, s=s, matcher=matcher, start=P.ElemRef(E, s), inner_target=inner_target)
+        md = ctx.fresh('max_depth', 'I') if depth_given else None
+        return [matcher, st['start']], {'max_depth': md}
+
+    lp = lambda i: z3.Select(st['E'].fields['logprob'], i)
+    ne = lambda i: z3.Select(st['E'].fields['obs_ne'], i)
+
+    def h_getattr(it, ref, attr):
+        if attr in ref.arr.fields:
+            return z3.Select(ref.arr.fields[attr], ref.idx)
+        if attr == 'prev':
+            return PrevSeq(ref.idx)
+        r = prog.find_member('BaseMatching', attr)
+        if r and isinstance(r[0], __import__('ast').FunctionDef):
+            fvm = FuncVal(r[0], prog.classes[r[1]][1], r[1])
+            if any(isinstance(d, __import__('ast').Name) and d.id == 'property' for d in r[0].decorator_list):
+                return it.call_fn(fvm, [ref], {}, force_inline=True)
+            return Bound(fvm, ref)
+        raise Unsupported(f"entry attribute {attr}")
+    hooks = {('getattr', 'ElemRef'): h_getattr,
+             ('len', 'PrevSeq'): lambda it, p: prev_n(p.of),
+             ('len', 'Lattice'): lambda it, o: lat_len(it),
+             ('indexed', 'PrevSeq'): lambda it, p: (prev_n(p.of), lambda j: P.ElemRef(st['E'], prev_at(p.of, j))),
+             ('reversed', 'Accum'): lambda it, a: Obj('Reversed', of=a),
+             ('list', 'Obj'): lambda it, o: o}
+
+    def lat_len(it):
+        if 'lat_n' not in st:
+            st['lat_n'] = it.ctx.fresh('lat_n', 'I')
+            it.ctx.assume(st['lat_n'] >= 0)
+        return st['lat_n']
+
+    def cur_idx(env, name='node_max'):
+        v = env.get(name)
+        return v.idx if isinstance(v, P.ElemRef) and v.arr is st['E'] else None
+
+    # ---- outer while loop
+    def w_inv(it, env):
+        c = cur_idx(env)
+        if c is None:
+            return [('current-entry-is-an-entry', z3.BoolVal(False))]
+        out = [('current-entry-is-an-entry', z3.And(0 <= c, c < st['E'].n)), ('depth-counter-non-negative', to_z3(env['cur_depth']) >= 0)]
+        return out
+
+    def w_havoc(it, env, pre):
+        env['node_max'] = P.ElemRef(st['E'], it.ctx.fresh('cur', 'I'))
+        env['cur_depth'] = it.ctx.fresh('cur_depth', 'I')
+        st['head'] = (env['node_max'].idx, env['cur_depth'])
+
+    def w_body_post(it, env, pre, elem, events, how):
+        c0, d0 = st['head']
+        apps = [e for e in events if e.kind == 'append' and len(e.loops) >= 1]
+        if how == 'break':
+            it.ctx.oblige("chain:no-break-while-predecessors-exist", z3.BoolVal(False), kind='post')
+            return
+        it.ctx.oblige("chain:exactly-one-entry-appended-per-step", b2z(len(apps) == 1), kind='post')
+        if len(apps) != 1:
+            return
+        a = apps[0].value
+        ok = isinstance(a, P.ElemRef) and a.arr is st['E']
+        it.ctx.oblige("chain:appended-entry-becomes-the-current-entry", b2z(ok and env.get('node_max') is a), kind='post')
+        if not ok:
+            return
+        jm = z3.Int('jm!bt')
+        it.ctx.oblige("chain:appended-entry-is-a-stored-predecessor-of-the-current-entry",
+                      z3.Exists([jm], z3.And(0 <= jm, jm < prev_n(c0), prev_at(c0, jm) == a.idx)), kind='post')
+        it.ctx.oblige("chain:appended-entry-is-a-most-probable-predecessor",
+                      z3.ForAll([jq], z3.Implies(z3.And(0 <= jq, jq < prev_n(c0)), lp(prev_at(c0, jq)) <= lp(a.idx))), kind='post')
+        it.ctx.oblige("chain:depth-counts-emitting-entries", to_z3(env['cur_depth']) == d0 + z3.If(ne(a.idx) == 0, 1, 0), kind='post')
+
+    # ---- inner for loop: arg-max with first-of-equals
+    def f_inv(it, env):
+        k = env['$idx']
+        nm = env.get('node_max')
+        last = cur_idx(env, 'node_max_last')
+        if last is None:
+            return [('scanned-entry-is-an-entry', z3.BoolVal(False))]
+        if nm is None:
+            return [('no-candidate-only-before-the-first-element', k == 0)]
+        if not (isinstance(nm, P.ElemRef) and nm.arr is st['E']):
+            return [('candidate-is-an-entry', z3.BoolVal(False))]
+        js = st.get('jstar')
+        if env.get(st.get('inner_target', 'prev_m')) is nm:
+            js = k - 1          # ghost witness: the body has just replaced the candidate by this iteration's element
+        if js is None:
+            return [('candidate-is-a-scanned-predecessor', z3.BoolVal(False))] if False else \
+                [('candidate-is-best-so-far', z3.And(z3.Exists([jq], z3.And(0 <= jq, jq < k, prev_at(last, jq) == nm.idx)),
+                                                    z3.ForAll([jq], z3.Implies(z3.And(0 <= jq, jq < k), lp(prev_at(last, jq)) <= lp(nm.idx)))))]
+        # (which of several equally probable predecessors is taken is left open: predecessor sets hold one entry in practice)
+        return [('candidate-is-best-so-far', z3.And(0 <= js, js < k, prev_at(last, js) == nm.idx,
+                                                   z3.ForAll([jq], z3.Implies(z3.And(0 <= jq, jq < k), lp(prev_at(last, jq)) <= lp(nm.idx)))))]
+
+    def f_havoc(it, env, pre):
+        if it.ctx.choice(2, 'cand-none') == 0:
+            env['node_max'] = None
+            st['jstar'] = None
+        else:
+            js = it.ctx.fresh('jstar', 'I')
+            st['jstar'] = js
+            last = cur_idx(env, 'node_max_last')
+            env['node_max'] = P.ElemRef(st['E'], prev_at(last, js) if last is not None else it.ctx.fresh('x', 'I'))
+
+    def f_body_post(it, env, pre, elem, events, how):
+        # ghost update of the witness index: when the body replaced the candidate, the witness is this element's position
+        nm = env.get('node_max')
+        k = env['$idx'] - 1
+        if isinstance(nm, P.ElemRef) and isinstance(elem, P.ElemRef) and nm is elem:
+            st['jstar'] = k
+    import ast
+    loops_ast = sorted([x for x in ast.walk(fv.node) if isinstance(x, (ast.For, ast.While))], key=lambda x: (x.lineno, x.col_offset))
+    loops = {}
+    for i, x in enumerate(loops_ast):
+        if isinstance(x, ast.While):
+            loops[(fv.qual, i)] = {'inv': w_inv, 'havoc': w_havoc, 'body_post': w_body_post, 'allow_break': True}
+        elif isinstance(x, ast.For) and 'prev' in ast.unparse(x.iter):
+            loops[(fv.qual, i)] = {'inv': f_inv, 'havoc': f_havoc, 'body_post': f_body_post}
+            inner_target = x.target.id if isinstance(x.target, ast.Name) else 'prev_m'
+
+    def goals(ctx, res):
+        g = [('chain:result-is-the-accumulated-list-reversed', b2z(isinstance(res, Obj) and res.cls == 'Reversed' and isinstance(res.f.get('of'), Accum)))]
+        if isinstance(res, Obj) and res.cls == 'Reversed' and isinstance(res.f.get('of'), Accum):
+            acc = res.f['of']
+            g.append(('chain:starts-from-the-given-entry', b2z(len(acc.init) == 1 and acc.init[0] is st['start'])))
+        return g
+    rep = verify_function(prog, fv, setup, goals, models=K.base_models(), hooks=hooks, loops=loops,
+                          name=f"BaseMatcher._build_matching_path[max_depth {'given' if depth_given else 'None'}]")
+    return fv, rep
